@@ -12,6 +12,7 @@ generated, since order is the interesting input.
 -/
 import Daac.Props.C03
 import Daac.Proofs.SpecProps
+import Daac.Proofs.Rung2
 namespace Daac.Props.C04
 open Daac
 variable {V : Type} [DecidableEq V]
@@ -45,5 +46,23 @@ theorem shadowed_never_reported (Ps : List (Pat V)) (hV : ValidPats Ps) (h : Lis
 /-- … and its presence never changes what is reported for the other patterns. -/
 theorem shadowed_irrelevant (Ps : List (Pat V)) (hV : ValidPats Ps) (h : List Nat) :
     specLF Ps h = specLF (retained Ps) h := specLF_retained hV h
+
+
+/-! ### Rung 2 — every pattern collection, every `num_free_blocks`, in the model of the builder
+
+`buildDA` is the model of `build_with_values` (Model/Trie.lean, Model/Nfa.lean, Model/Build.lean),
+tied to the implementation by suite K-build (byte-identical tables). The chain of proofs:
+insertion phase (Proofs/TrieFacts, NfaQueue) → fail links and outputs (Proofs/NfaStd, NfaLm, NfaG)
+→ layout with the ring-buffer helper, BASE uniqueness and CHECK sanitising (Proofs/HelperFacts,
+LayoutB, LayoutC, MapperFacts) → table semantics (Proofs/LayoutSem) → iterators (Rung 1). -/
+
+/-- **Full strength in the model, byte-wise**: every valid ordered collection, every
+`num_free_blocks`: the automaton built with leftmost-first semantics from ALL patterns (shadowed
+ones included) answers every haystack with `specLF`. -/
+theorem leftmost_first_correct_build_bytewise (nfb : Nat) (Ps : List (Pat V)) (hV : ValidPats Ps)
+    (hbytes : ∀ p ∈ Ps, ∀ b ∈ p.key, b < 256) (da : DA V)
+    (hb : buildDA .bytewise ⟨2, nfb⟩ (Ps.map lpOf) = .ok da) (h : List Nat) (hh : ∀ b ∈ h, b < 256) :
+    ∃ l, lmAll da h = .ok (l, 0) ∧ l.map (·.1) = specLF Ps h :=
+  bytewise_leftmost_first_correct nfb Ps hV hbytes da hb h hh
 
 end Daac.Props.C04
